@@ -271,12 +271,12 @@ def _gen_arr_write(w, rng):
             return None
         vs = spec["vars"][0]
         arr = {"dims": vs["dims"], "labels": [spec["dims"][d] for d in vs["dims"]], "dtype": vs["dtype"], "values": vs["values"],
-               "attrs": vs["attrs"], "axattrs": [spec["axattrs"].get(d, {}) for d in vs["dims"]]}
+               "attrs": vs["attrs"], "axattrs": [spec["axattrs"].get(d, {}) for d in vs["dims"]], "forder": vs.get("forder", False)}
         return {"op": "arr_write", "path": path, "name": vs["name"], "mode": mode, "arr": arr}
     spec = gen_dataset_spec(rng, w.cfg, nvars=1)
     vs = spec["vars"][0]
     arr = {"dims": vs["dims"], "labels": [spec["dims"][d] for d in vs["dims"]], "dtype": vs["dtype"], "values": vs["values"],
-           "attrs": vs["attrs"], "axattrs": [spec["axattrs"].get(d, {}) for d in vs["dims"]]}
+           "attrs": vs["attrs"], "axattrs": [spec["axattrs"].get(d, {}) for d in vs["dims"]], "forder": vs.get("forder", False)}
     return {"op": "arr_write", "path": path, "name": vs["name"], "mode": mode, "arr": arr}
 
 
